@@ -1,5 +1,7 @@
 """Check engine: runs the six steps of DESIGN.md §3.4 for one property and applies the verdict rules of §3.5."""
+import contextlib
 import importlib
+import io
 import json
 import os
 import re
@@ -89,7 +91,8 @@ def run_check(pid, tier, seed, replay=None):
     corr_ok = True
     if model_ok and not tool_failure:
         try:
-            mod.correspondence(ctx)
+            with contextlib.redirect_stdout(io.StringIO()):     # the implementation prints warnings; keep our stdout for verdict lines
+                mod.correspondence(ctx)
         except ModelError as e:
             tool_failure = 'model driver failed: ' + str(e)[-400:]
         except Exception:
@@ -101,7 +104,8 @@ def run_check(pid, tier, seed, replay=None):
 
     # ---- step 5: property oracle on the real code (always)
     try:
-        mod.monitor(ctx, extended=bool(broken))
+        with contextlib.redirect_stdout(io.StringIO()):
+            mod.monitor(ctx, extended=bool(broken))
     except Exception:
         ctx.violation('monitor raised: ' + traceback.format_exc()[-800:], None, key='monitor-raised')
 
